@@ -222,7 +222,7 @@ def run_c16(tier):
         r = recs[b["i"]]
         for law in b["laws"]:
             findings.append({"kind": "finding", "prop": prop, "what": "law fails: " + law, "site": r.get("site", ""),
-                             "collides": b["collides"], "detail": {"node": nodes[b["i"]], "record": {k: r.get(k) for k in ("all", "pub", "priv", "slots", "shape_key", "bij", "back", "msg")}}})
+                             "collides": b["collides"], "detail": {"node": nodes[b["i"] % len(nodes)], "naming": "txt-fwd" if b["i"] < len(nodes) else "num0", "record": {k: r.get(k) for k in ("all", "pub", "priv", "slots", "shape_key", "bij", "back", "msg")}}})
     if res["canon"]:
         w = res["canon"][0]
         findings.append({"kind": "finding", "prop": prop, "site": "", "collides": w["collides"],
